@@ -15,7 +15,14 @@ RULE = ("C->S: for every exported TL-B type of packages tlb, wallet, abi (type l
         "are compared as [key bits, value] lists in ascending key order). Tlb_Gen checks Dec(Enc(v)) = v for every vector it emits and "
         "Dec against the reference dictionary writer in every label form. S->C: the boundary-value vectors of Tlb_Gen for all primitive and combinator "
         "types are encoded and decoded by the library; TVM tuples (encoder 'not implemented': decode side only) are built from their schema by VmTuple_Gen and must decode, "
-        "as a value, on a stack and through VmStack.UnmarshalTL, to exactly the entries the specification put in. Non-trivial = value other than the zero value; distinct = distinct (type, cell).")
+        "as a value, on a stack and through VmStack.UnmarshalTL, to exactly the entries the specification put in. The VM stack API (spec/VmStackApi.tla, from TVM's stack "
+        "semantics): VmStackApi_Gen (TLC) writes sequences of Put of values of every kind, integers at the int64 / uint64 / 257-bit bounds, slices with every kind of window, "
+        "(value, Go destination) pairs incl. VmTuple_Gen's tuples and ill-formed neighbours, TL-B structures; the harness runs them through Put, MarshalTLB / UnmarshalTLB, "
+        "MarshalTL / UnmarshalTL, the Is* / Int64 / Uint64 / Int257 / Cell / CellSlice accessors, the Unmarshal readers into Go values, RecursiveToSlice, TlbStructToVmCell(Slice) / "
+        "UnmarshalToTlbStruct; VmStackApi_Trace (TLC) recomputes each expectation from the case and accepts an event only if every answer is the required one (last Put = top = "
+        "listed first; outermost cell = top; decoded stack bottom-first, so decode(encode(l)) = reverse(l); TL bytes = a bag with one root, empty bytes = empty stack; exact "
+        "conversions inside the range of the target, an error outside it and for mismatching destinations, never a panic). "
+        "Non-trivial = value other than the zero value; distinct = distinct (type, cell) + vmstack cases.")
 
 
 def decode_only_tuples(ck):
@@ -29,7 +36,10 @@ def decode_only_tuples(ck):
     vp, tp = os.path.join(ck.work, "tuples_vec.ndjson"), os.path.join(ck.work, "tuples_trace.ndjson")
     vlib.write_ndjson(vp, [{k: v[k] for k in ("n", "kind", "wf", "vals", "boc", "stack")} for v in vecs])
     ck.run_vh(["drive", "C08", "-part", "tuples", "-in", vp, "-out", tp, "-tier", ck.tier, "-seed", ck.seed, "-shard", 0, "-shards", 1], timeout=1200)
-    evs = [e for e in vlib.read_ndjson(tp) if e.get("k") in ("Tuple", "Panic", "Crash", "Timeout")]   # (Begin records only attribute a death)
+    # (Begin records only attribute a death; the driver also reads every decoded tuple on into Go values - VmStkTuple.Unmarshal,
+    # RecursiveToSlice: C08's totality question, and the business of the vmstack phase below, not of this one)
+    readers = ("VmStackValue.Unmarshal", "VmStkTuple.Unmarshal", "VmStkTuple.RecursiveToSlice", "VmTuple.RecursiveToSlice")
+    evs = [e for e in vlib.read_ndjson(tp) if e.get("k") in ("Tuple", "Panic", "Crash", "Timeout") and e.get("site") not in readers]
     if sum(1 for e in evs if e.get("k") == "Tuple") < len(vecs):
         raise Infra("only %d Tuple events for %d vectors" % (len(evs), len(vecs)))
     ok = copy.deepcopy(next(e for e in evs if e.get("k") == "Tuple" and e.get("res") == "ok" and e.get("n", 0) >= 2))
@@ -54,6 +64,126 @@ def decode_only_tuples(ck):
     ck.extra["decode_only_tuples"] = len(evs)
 
 
+VM_FIELDS = ("list", "tree", "rt", "mtl", "rttl", "sdec", "sdectl", "text", "is", "i64", "u64", "i257", "cell", "cslice", "rts", "trs", "um", "tum",
+             "tocell", "toslice", "backcell", "backslice", "backslice2", "viastack")
+
+
+READER_APIS = {"VmStackValue.Unmarshal", "VmStkTuple.Unmarshal", "VmStack.Unmarshal", "VmTuple.RecursiveToSlice", "VmStkTuple.RecursiveToSlice"}
+
+
+def vm_stack_api(ck):
+    """S->C: VmStackApi_Gen (TLC) writes the cases of the VM stack API - sequences of Put of small values of every kind, values at the
+    int64 / uint64 / 257-bit bounds for the accessors, (value, destination) pairs for Unmarshal incl. VmTuple_Gen's tuples and their
+    ill-formed neighbours, TL-B structures for TlbStructToVmCell / TlbStructToVmCellSlice; `vh replay C03 -part vmstack` runs them against
+    package tlb; VmStackApi_Trace (TLC) recomputes every expectation from the case the event echoes and names the API whose answer
+    is not the one spec/VmStackApi.tla requires. Keys C03:vmstack:<api>:<class>."""
+    params = os.path.join(ck.work, "vmstack_params.json")
+    json.dump({"seed": ck.seed}, open(params, "w"))
+    res = ck.tlc_or_infra("VmStackApi_Gen", "gen/VmStackApi_Gen_full.cfg" if ck.thorough else "gen/VmStackApi_Gen.cfg", files={"vmstack_params.json": params},
+                          workers=4, timeout=900, name="vmstack_gen", heap_gb=3)
+    vecs = res.vecs()
+    per = {}
+    for v in vecs:
+        per[v["api"]] = per.get(v["api"], 0) + 1
+    if set(per) != {"stack", "value", "unmarshal", "struct"} or per["stack"] < 100 or per["value"] < 60 or per["unmarshal"] < 500 or per["struct"] < 15:
+        raise Infra("VmStackApi_Gen wrote too few cases: %s" % per)
+    vecs.sort(key=lambda v: (v["api"], json.dumps(v, sort_keys=True)))
+    vp, tp = os.path.join(ck.work, "vmstack_vec.ndjson"), os.path.join(ck.work, "vmstack_trace.ndjson")
+    vlib.write_ndjson(vp, vecs)
+    ck.run_vh(["replay", "C03", "-part", "vmstack", "-in", vp, "-out", tp], timeout=600)
+    evs = vlib.read_ndjson(tp)
+    if evs[-1].get("k") != "End" or len(evs) - 1 < len(vecs):
+        raise Infra("vmstack replay incomplete: %d events for %d cases" % (len(evs) - 1, len(vecs)))
+    evs = evs[:-1]
+    badvec = [e for e in evs if e.get("k") == "VmBadVector"]
+    if badvec:
+        raise Infra("the harness could not build %d cases of VmStackApi_Gen: %s" % (len(badvec), badvec[0].get("msg")))
+    # ---- canaries: copies of recorded events with one answer changed, appended to the same trace together with the originals.
+    # (They are derived from recorded behaviour: on a tree whose answers are wrong an original may be missing or rejected; then
+    # the violations reported stand and Check.canary only notes it.)
+    i64max = str(2 ** 63 - 1)
+    cans, missing = [], []      # (original, [changed copies]); names of groups whose original was not recorded in the expected shape
+    def group(name, pred, changes):
+        e = next((x for x in evs if pred(x)), None)
+        if e is None:
+            missing.append(name)
+            return
+        cs = []
+        for f in changes:
+            c = copy.deepcopy(e); f(c); cs.append(c)
+        cans.append((copy.deepcopy(e), cs))
+    group("stack", lambda e: e["k"] == "VmStack" and len(e["puts"]) == 3 and e["enc"] == "ok" and e["mtl"]["res"] == "ok" and e["rt"]["res"] == "ok"
+          and e["sdectl"]["res"] == "ok" and len(set(e["list"])) == 3,
+          [lambda c: c.update(list=c["list"][::-1]),                                        # Put appended instead of pushing
+           lambda c: c["rt"].update(list=c["rt"]["list"][::-1]),                            # the decoder listing top-first
+           lambda c: c["sdectl"].update(list=c["sdectl"]["list"][::-1]),
+           lambda c: c.update(tree=c["tree"].replace("{000000000000000000000011", "{000000000000000000000010", 1)),    # depth field
+           lambda c: c["mtl"].update(hex=c["mtl"]["hex"][:-8] + "00000000" + c["mtl"]["hex"][-8:])])                   # TL padding
+    group("int64", lambda e: e["k"] == "VmValue" and e["v"].get("t") == "int" and e["v"].get("v") == i64max and e["mode"] == "decode" and e["i64"]["res"] == "ok",
+          [lambda c: c["i64"].update(v=str(2 ** 63 - 2)),                                   # off by one at the int64 bound
+           lambda c: c.update(u64={"res": "panic", "panic": "x"})])                         # a panic where the precondition holds
+    group("uint64", lambda e: e["k"] == "VmValue" and e["v"].get("t") == "int" and e["v"].get("v") == str(2 ** 64 - 1) and e["u64"]["res"] == "ok",
+          [lambda c: c["u64"].update(v="0")])                                               # uint64 wrapped one value too early
+    group("flags", lambda e: e["k"] == "VmValue" and e["v"].get("t") == "tinyint",
+          [lambda c: c["is"].update(nul=True), lambda c: c["is"].update(int=False)])        # wrong Is* flags
+    group("window", lambda e: e["k"] == "VmValue" and e["v"].get("t") == "slice" and e["v"]["sb"] > 0 and e["v"]["eb"] > e["v"]["sb"] and e["cslice"]["res"] == "ok",
+          [lambda c: c["cslice"].update(v=c["cslice"]["v"].replace("{", "{1", 1))])         # the window one bit too wide
+    group("fields", lambda e: e["k"] == "VmUnmarshal" and e["dest"] == "S3" and e["um"]["res"] == "ok" and e["um"].get("val") == "{1,2,3}",
+          [lambda c: c["um"].update(val="{3,2,1}")])                                        # fields filled in the opposite order
+    group("count", lambda e: e["k"] == "VmUnmarshal" and e["dest"] == "S2" and e["cls"].startswith("tupleN") and e["um"]["res"] == "err",
+          [lambda c: c.update(um={"res": "ok", "val": "{1,2}"})])                           # a longer tuple silently cut to the struct
+    group("list", lambda e: e["k"] == "VmUnmarshal" and e["dest"] == "L64" and e["um"]["res"] == "ok" and e["um"].get("val") == "[1,2,3]",
+          [lambda c: c.update(tum={"res": "panic", "panic": "x"}), lambda c: c["um"].update(val="[1,2]")])     # a panic; the last element lost
+    group("int8", lambda e: e["k"] == "VmUnmarshal" and e["dest"] == "i8" and e["v"].get("v") == "127" and e["um"]["res"] == "ok",
+          [lambda c: c["um"].update(val="-129")])
+    group("wrap", lambda e: e["k"] == "VmUnmarshal" and e["dest"] == "i8" and e["v"].get("v") == "128" and e["um"]["res"] == "err",
+          [lambda c: c.update(um={"res": "ok", "val": "-128"})])                            # silent wrap past the int8 bound
+    group("struct", lambda e: e["k"] == "VmStruct" and e["cls"] == "MsgAddress" and e["s"].get("ctor") == "std" and e["backslice2"]["res"] == "ok" and e["tocell"]["res"] == "ok",
+          [lambda c: c["backslice2"].update(text=c["backslice2"]["text"].replace(":std:", ":std:1")),
+           lambda c: c["tocell"].update(text=c["tocell"]["text"].replace("{10", "{11", 1))])
+    canaries = [c for _, cs in cans for c in cs]
+    originals = [o for o, _ in cans]
+    n = len(evs)
+    vlib.write_ndjson(tp, evs + canaries + originals + [{"k": "End", "events": n + len(canaries) + len(originals)}])
+    st0 = (ck.traces_ok, ck.evaluations)
+    res, rejected = ck.validate_events("VmStackApi_Trace", "trace/VmStackApi_Trace.cfg", tp, timeout=1800, name="vmstack", heap_gb=3)
+    ck.traces_ok, ck.evaluations = st0[0] + n - sum(1 for r in rejected if r["line"] <= n), st0[1] + n
+    notes = cellcommon.notes_by_line(res)
+    can_rej = set()
+    observations = {}
+    for rj in rejected:
+        e, ln = rj["event"], rj["line"]
+        if ln > n:
+            can_rej.add(ln - n)
+            continue
+        api = (notes.get(ln) or [["no-action"]])[0][0]
+        got = {k: e[k] for k in VM_FIELDS if k in e}
+        # The property speaks about stack VALUES as TL-B (encode / decode, the list convention) - Put, the cell and TL forms, the Is* /
+        # accessor methods and the TL-B struct helpers are judged. The reflection readers that map a stack onto arbitrary Go
+        # destinations (VmStackValue.Unmarshal, VmStkTuple.Unmarshal, VmStack.Unmarshal, RecursiveToSlice) are specified in
+        # VmStackApi.tla too, but no clause of C03 covers them: what they do differently (silent truncation into narrow integers,
+        # [2^63, 2^64) refused for uint64, pointer destinations, one-entry tuples refused ...) is recorded as an observation
+        # (patches/0007), not as a violation. A panic on spec-built input is C08's clause and is reported there.
+        if api.split(":")[0] in READER_APIS or api in READER_APIS:
+            observations.setdefault("%s:%s" % (api, e.get("cls", e.get("k"))), json.dumps(got)[:300])
+            continue
+        ck.report("C03:vmstack:%s:%s" % (api, e.get("cls", e.get("k"))),
+                  "VM stack API: the answer of %s for case %s is not what spec/VmStackApi.tla requires: %s" % (
+                      api, json.dumps({k: e[k] for k in ("puts", "v", "dest", "s") if k in e})[:400], json.dumps(got)[:600]),
+                  {"kind": "vmstack", "api": api, "event": cellcommon.slim(e, 8000)})
+    ck.canary("S->C vmstack: reversed Put order / reversed decoded order (cell, TL) / wrong depth / broken TL padding / int64 off by one / panic of Uint64 on an "
+              "integer / uint64 wrapped / wrong IsNull / wrong IsInt / slice window one bit wider / struct fields in the opposite order / tuple cut to a shorter "
+              "struct / panic of VmStkTuple.Unmarshal / last list element lost / int8 off range / silent wrap past the int8 bound / structure read back changed / "
+              "wrong constructor bits rejected, "
+              "the originals accepted (groups about the reflection readers are optional: their originals exist only where the library answers as the specification says)",
+              not [m for m in missing if m not in ("fields", "count", "list", "int8", "wrap")] and can_rej == set(range(1, len(canaries) + 1)))
+    ck.extra["vmstack"] = {"cases": per, "events": n, "canaries": len(canaries), "canary_groups_missing": missing,
+                           "reader_observations_outside_the_property": observations}
+    e0 = next(e for e in evs if e["k"] == "VmStack" and len(e["puts"]) == 2 and e["enc"] == "ok")
+    ck.sample({"direction": "S->C", "vmstack": cellcommon.slim({k: e0[k] for k in ("puts", "list", "tree", "rt")}, 1200)})
+    return len(vecs)
+
+
 def run(ck):
     ck.assumptions += ["TLC 1.8.0, CommunityModules", "Prim converters",
                        "the value domain of a type is what its Go representation holds AND its TL-B definition expresses: enumerations take their declared constants, "
@@ -62,6 +192,8 @@ def run(ck):
                        "value equality is equality of the harness's canonical reflection dump (exported fields)"]
     tlbcommon.regen_types(ck)
     ck.build_vh()
+    if os.environ.get("VERIF_C03_PHASE") == "vmstack":      # development aid: only the VM stack API phase
+        return ck.finish(rule=RULE, distinct=vm_stack_api(ck))
     # ---- S->C primitives (decode side of the specification's own cells, encode side of the boundary values)
     vecs, out = tlbcommon.prim_vectors(ck)
     for v, r in zip(vecs, out):
@@ -73,6 +205,8 @@ def run(ck):
     ck.evaluations += len(vecs)
     # ---- types whose encoder is declared "not implemented" are exercised decode-side only: TVM tuples built by the specification
     decode_only_tuples(ck)
+    # ---- the VM stack API as documented (Put / list order, TL form, accessors, reading into Go values, TL-B structures on the stack)
+    nvm = vm_stack_api(ck)
     # ---- C->S round trips of every type
     traces = cellcommon.drive_shards(ck, "C03")
     def val(tp):
@@ -140,7 +274,7 @@ def run(ck):
     ck.states, ck.transitions, ck.traces_ok, ck.evaluations = st
     ck.canary("C->S: changed value / changed bit (third opinion) / panic / decode error rejected, original accepted; Dec alone: changed bit / extra bit / "
               "changed value text / changed bit in a dictionary leaf rejected, dictionary original accepted", [r["line"] for r in rej] == [1, 2, 3, 4, 6, 7, 8, 9])
-    return ck.finish(rule=RULE, distinct=len(distinct) + len(vecs))
+    return ck.finish(rule=RULE, distinct=len(distinct) + len(vecs) + nvm)
 
 
 def leaf_of(tj):
@@ -155,10 +289,19 @@ def leaf_of(tj):
 
 def replay(ck, path):
     import c04
-    rp = json.load(open(path))["replay"]
+    doc = json.load(open(path))
+    rp = doc["replay"]
     if rp["kind"] == "prim":
         rc = c04.replay(ck, path)
         return rc
+    if rp["kind"] == "vmstack":
+        # the cases are regenerated (same tier and seed), run against the current tree and judged again
+        ck.tier, ck.seed, ck.thorough = doc.get("tier", "quick"), int(doc.get("seed", 1)), doc.get("tier") == "thorough"
+        ck.build_vh()
+        vm_stack_api(ck)
+        again = [v for v in ck.violations if v["key"] == doc["key"]] or [k for k in ck.known_hit if k["key"] == doc["key"]]
+        print("%s: %s" % (doc["key"], "REPRODUCED: " + (again[0].get("what", "")[:600]) if again else "not reproduced on this tree"))
+        return 1 if again else 0
     print("recorded event (re-run bin/check C03 to re-record and re-judge):")
     print(json.dumps(rp.get("event"))[:2000])
     return 0
